@@ -319,6 +319,37 @@ class Opaque:
 
 
 # --------------------------------------------------------------------------------------
+def _frozen(v):
+    """a copy of a mutable engine value that later mutations of the original do not reach"""
+    if isinstance(v, SymList):
+        return SymList(v.count, v.at)
+    if isinstance(v, SArr):
+        r = SArr(Buf(v.buf.length, v.buf.at, getattr(v.buf, "name", None)), v.length, v.start, v.step, v.kind, v.enc)
+        for k, x in v.__dict__.items():
+            if k not in r.__dict__:
+                setattr(r, k, x)
+        return r
+    if type(v).__name__ == "CatList":
+        return type(v)(v.count, _frozen(v.cat))
+    return v
+
+
+def _freeze_closure(fn, depth=0):
+    """quantified hypotheses are evaluated lazily: the lists / arrays their closure refers to are replaced by frozen copies at the moment
+    the hypothesis is assumed (see Ctx.fingerprint for the check that catches what this cannot reach)"""
+    for cell in (getattr(fn, "__closure__", None) or ()):
+        try:
+            v = cell.cell_contents
+        except ValueError:
+            continue
+        fv = _frozen(v)
+        if fv is not v:
+            try:
+                cell.cell_contents = fv
+            except Exception:
+                pass
+
+
 class Ctx:
     """One symbolic execution of one function along one decision sequence."""
 
@@ -357,12 +388,43 @@ class Ctx:
         for f in facts:
             if isinstance(f, Forall):
                 self.schemas.append(f)
+                self.fingerprint(f)
             elif isinstance(f, (list, tuple)):
                 self.assume(*f)
             else:
                 f = B(f)
                 if not z3.is_true(f):
                     self.path.append(f)
+
+    def probe(self, f):
+        """the body of a quantified hypothesis evaluated at fixed probe variables (definitional side facts discarded)"""
+        vs = [z3.Int("probe!%d" % k) for k in range(f.nvars)]
+        saved, was = len(self.path), getattr(self, "solving", False)
+        self.solving = True
+        try:
+            e = z3.simplify(B(f.body(*vs)))
+        finally:
+            self.solving = was
+            del self.path[saved:]
+        return e
+
+    def fingerprint(self, f):
+        """Hypothesis bodies are Python closures evaluated lazily, at instantiation time.  A closure that reads MUTABLE engine state (a heap
+        cell that is written later, a list that is appended to, a variable) would silently change its meaning.  The body is therefore
+        evaluated once now, at probe variables, and again before every use (solve.saturate): a difference stops the proof (checker defect,
+        never a verdict) - the contract has to freeze the values it talks about."""
+        _freeze_closure(f.body)
+        try:
+            f._probe = self.probe(f)
+        except Exception:
+            f._probe = None
+
+    def check_fingerprint(self, f):
+        p0 = getattr(f, "_probe", None)
+        if p0 is None:
+            return
+        if not self.probe(f).eq(p0):
+            raise Unsupported("hypothesis '%s' changed its meaning after it was assumed (its body reads mutable engine state lazily)" % (f.name or "?"))
 
     def oblige(self, oid, goal, kind="ensures", lineno=None, note="", extra_terms=()):
         """Register a proof obligation under the current path condition."""
